@@ -32,37 +32,73 @@ func VF_C09_a() {
 	vf.Observe("owner", owner)
 }
 
-// C09.b: slot algebra: monotone indices, one interval per index, consecutive slots -> consecutive owners.
+// C09.b: slot algebra: monotone indices, one interval per index.
 func VF_C09_b() {
-	n, iv := vfSlotParams()
+	_, iv := vfSlotParams()
 	ns1 := vf.I64("ns1")
 	ns2 := vf.I64("ns2")
 	vf.Assume(ns1 >= 0)
 	vf.Assume(ns1 <= ns2)
-	vf.Assume(ns2 <= 4000000000000000000)
 	s1 := NewFromUnixNano(ns1)
 	s2 := NewFromUnixNano(ns2)
 	vf.Reach("C09.b")
 	// monotone
 	vf.Assert(s1.nextIndex <= s2.nextIndex, "C09.b.monotone")
 	vf.Assert(LessEqual(s1, s2), "C09.b.monotone")
-	// same index => within one interval
+	vf.Assert(s1.prevIndex <= s2.prevIndex, "C09.b.monotone")
+	// same index => within one interval (+ < 1 ms of truncation)
 	if s1.nextIndex == s2.nextIndex {
 		vf.Assert(ns2-ns1 < iv*1000000000+1000000, "C09.b.one-interval")
 		vf.Assert(Equal(s1, s2), "C09.b.one-interval")
 	}
-	// far apart => different index
+	// farther apart than one interval => different index
 	if ns2-ns1 >= iv*1000000000+1000000 {
 		vf.Assert(s1.nextIndex < s2.nextIndex, "C09.b.one-interval")
 	}
-	// next = prev + 1 always
-	vf.Assert(s1.nextIndex == s1.prevIndex+1, "C09.b.next-prev")
-	// consecutive slots are owned by consecutive producers
-	if IsNextTo(s2, s1) {
-		o1 := s1.NextBpIndex(n)
-		o2 := s2.NextBpIndex(n)
-		vf.Assert(o2 == (o1+1)%int64(n), "C09.b.rotation")
+	// next index is prev or prev+1 (equal only in the very first millisecond of the epoch)
+	vf.Assert(s1.nextIndex >= s1.prevIndex, "C09.b.next-prev")
+	vf.Assert(s1.nextIndex <= s1.prevIndex+1, "C09.b.next-prev")
+	if s1.timeMs >= 1 {
+		vf.Assert(s1.nextIndex == s1.prevIndex+1, "C09.b.next-prev")
 	}
 	vf.Observe("idx1", s1.nextIndex)
 	vf.Observe("idx2", s2.nextIndex)
+}
+
+// C09.b.rotation (1): the slot following s1 has index s1.nextIndex+1 (all instants, all intervals).
+func VF_C09_b_succ() {
+	vfSlotParams()
+	ns1 := vf.I64("ns1")
+	ns2 := vf.I64("ns2")
+	vf.Assume(ns1 >= 1000000)
+	vf.Assume(ns1 <= ns2)
+	s1 := NewFromUnixNano(ns1)
+	s2 := NewFromUnixNano(ns2)
+	vf.Assume(IsNextTo(s2, s1))
+	vf.Reach("C09.b.succ")
+	vf.Assert(s2.nextIndex == s1.nextIndex+1, "C09.b.succ")
+	vf.Assert(!Equal(s1, s2), "C09.b.succ")
+}
+
+// C09.b.rotation (2): consecutive slot indices are owned by consecutive producers mod bpCount
+// (bpCount enumerated 1..100, slot index symbolic).
+func VF_C09_b_rotation() {
+	n := uint16(vf.Choice("bpCount", 100) + 1)
+	x := vf.I64("nextIndex")
+	vf.Assume(x >= 0)
+	vf.Assume(x < 9000000000000000000)
+	s1 := &Slot{nextIndex: x}
+	s2 := &Slot{nextIndex: x + 1, prevIndex: x}
+	vf.Reach("C09.b.rotation")
+	o1 := s1.NextBpIndex(n)
+	o2 := s2.NextBpIndex(n)
+	vf.Assert(o2 == (o1+1)%int64(n), "C09.b.rotation")
+	vf.Assert(IsNextTo(s2, s1), "C09.b.rotation")
+	i := vf.U16("i")
+	vf.Assume(i < n)
+	if s1.IsFor(bp.Index(i), n) {
+		vf.Assert(s2.IsFor(bp.Index((i+1)%n), n), "C09.b.rotation")
+	}
+	vf.Observe("o1", o1)
+	vf.Observe("o2", o2)
 }
